@@ -33,19 +33,31 @@ CLAIMED = {
         design="DESIGN.md §3 C05, §9"),
     "C03": dict(
         text="Lean 4 theorems about an operator-algebra model (Op = oshape, ishape, app; leaves are dense matrices): A*B applies B "
-             "then A and is accepted iff A.ishape = B.oshape; A+B/A-B/-A/a*A/A*a laws; _hstack_params/_vstack_params: accepted iff axis "
-             "in [-ndim, ndim) and shapes agree off the normalised axis, returned indices are the prefix sums of the operand sizes for "
-             "every list of shapes, axis=None accepts everything; the _apply slab bounds [S_k, S_{k+1}) (open-ended last) read back the "
-             "parts of a concatenation and write a concatenation with nothing unwritten or overwritten; Vstack applies along the "
-             "normalised axis with the summed oshape; misfits rejected. Tie: axis normalisation, fold step, append-before-advance "
-             "order and rejection test extracted from linop.py into Gen/StackParams.lean each run (gen_params_agree, "
-             "gen_apply_axis_agree) + exact Gaussian-rational correspondence of random expression trees (incl. malformed ones) "
-             "built both in sigpy and in the Lean driver.",
-        note="Trusted: Lean kernel; translator gen_c03; numpy slicing / slice assignment semantics (sliceAx/rowWrite) and the "
-             "sequential per-dimension loop of _hstack_params are tied by correspondence only; operator-level hstack_block_row / "
-             "diag_block_diag (geometry glue from slab lemmas to N-d arrays) are validated, not proved; shape guards modelled as "
-             "equality (inputs of a different rank are outside the modelled domain).",
-        technique="Lean 4 proof over operator-algebra model + translator tie + exact differential correspondence of expression trees",
+             "then A and is accepted iff A.ishape = B.oshape; A+B/A-B/-A/a*A/A*a laws; Linop.apply with the EXACT shape guards "
+             "(call_iff; zip stops at the shorter shape, -1 is a wildcard: zipGuard_iff; equality for equal ranks without -1: "
+             "zipGuard_eq_iff / natGuard_eq_iff); _hstack_params/_vstack_params: accepted iff axis in [-ndim, ndim) and shapes agree "
+             "off the normalised axis, returned indices are the prefix sums of the operand sizes for every list of shapes, axis=None "
+             "accepts everything; N-d slab geometry via the outer x axis x inner decomposition of the row-major layout, READ side "
+             "(sliceAx_concat, slabs_concat: slicing a concatenation at the slab bounds returns the parts) and WRITE side "
+             "(assembleAx_concat, assemble_concat: nothing unwritten or overwritten); operator level, for every operand list that "
+             "passes build: vstack_block_col (Vstack(ops)(x) = concatenation of ops_k(x) along the normalised axis / of the "
+             "flattened outputs for None), hstack_block_row (Hstack(ops)(x_1 || ... || x_n) = sum_k ops_k(x_k)), diag_block_diag (all "
+             "four oaxis/iaxis combinations incl. the mixed None/axis cases); misfits rejected. Tie: _hstack_params/_vstack_params "
+             "are translated statement by statement (fold over shapes[1:], len(shape) != ndim test, fold over i in range(ndim) with "
+             "the source's if/elif, shapes[0][axis] IndexError before axis % ndim) into Gen/StackParams.lean each run and proved equal "
+             "to the model's combined test for every input (gen_loop_eq_combined, so stack_build_iff / stack_indices_prefix_sums are "
+             "statements about the translation: gen_stack_build_iff, gen_stack_indices_prefix_sums); _check_ishape/_check_oshape "
+             "translated and proved equal to zipGuard (gen_guard_agree); _apply axis normalisation (gen_apply_axis_agree) + exact "
+             "Gaussian-rational correspondence of random expression trees (incl. malformed ones, wrong-shaped inputs and inputs of "
+             "a different rank) built both in sigpy and in the Lean driver.",
+        note="Trusted: Lean kernel; translator gen_c03 (sequential statement translator _Seq); numpy slicing / slice assignment "
+             "semantics (sliceAx/rowWrite) and the bodies of Hstack/Vstack/Diag._apply (start/end selection, slice tuple, sum / "
+             "assignment) are a hand transcription tied by correspondence and the oracle, not by the translator; the block theorems "
+             "assume operand outputs of the advertised shapes with prod(shape) entries (automatic for inputs of the advertised "
+             "rank); numpy broadcasting of off-rank operands and 0-d arrays are not modelled (off-rank inputs are sent through "
+             "Identity/Reshape/scalar chains only). Observation (outside the property's domain, not flagged): the zip guard accepts "
+             "inputs whose shape is a proper prefix or an extension of ishape, e.g. Identity([2,3])(zeros(2)) returns shape (2,).",
+        technique="Lean 4 proof over operator-algebra model + translator-generated loops/guards proved equal to it + exact differential correspondence of expression trees",
         design="DESIGN.md §3 C03, §9"),
     "C11": dict(
         text="Lean 4 theorems (Mathlib, real inner-product spaces / R, C): each prox formula the translator extracts from prox.py / thresh.py (Gen/Prox.lean: soft threshold kernel, L1Reg threshold lamda*alpha, clip, l2 mask formula, linf = y - soft, L2Reg closed form with bias and inner prox, Conj's Moreau formula, UnitaryTransform, Stack) is the unique minimiser of 1/2||x-y||^2 + alpha g(x) in the strong form F p + 1/2||p-y||^2 + 1/2||x-p||^2 <= F x + 1/2||x-y||^2 (so minimal and unique), for real and complex data, incl. ball boundaries and bias; projections fix feasible points and are idempotent; l1-ball projection under the KKT certificate (theta >= 0, sum(|y_i|-theta)_+ = eps), which the correspondence verifies exactly for every case of Duchi's search; every nesting returns the input's shape. Tie: Gen/Prox.lean regenerated each run + correspondence of the real Prox classes/thresh functions with the exact Gaussian-rational model (exactly representable inputs, 1e-12; Fraction object arrays by equality). thresh.psd_proj: its body is translator-generated (Gen/Prox.lean psdProjWith over the PsdOps record: Hermitian part, eigh as a parameter, eigenvalue clamp, V diag(w) V^H) and proved (psd_proj_prox, any RCLike field) to be the Frobenius projection onto the PSD cone of an arbitrary square input under the spectral contract of eigh (V^H V = I, V diag(w) V^H = A, w real), via psd_proj_spectral (P PSD, H-P NSD, (H-P)P = 0, Re<H-P,Q-P> <= 0) and psd_proj_skew; Duchi's sort/cumsum index search is proved to return a KKT threshold (duchi_theta over the generated l1projSt/l1projCond; l1_proj_duchi_real/complex: soft_thresh(st[idx], y) is the l1-ball projection; duchiTheta_kkt for the executable model).",
@@ -314,15 +326,23 @@ CLAIMED = {
              "rule, per recon class the y*weights**e exponent and prox/G construction): batch_slices_partition / "
              "sense_batch_partition (the slices [c b, (c+1) b) for c < ceil(n/b) concatenate to 0..n-1 in order for ALL n and b >= 1), "
              "sense_batches_nonempty, sense_denote (the unbatched operator is sqrt(w) * F(mps_c * x) for an abstract linear F), "
+             "sense_denote_index (out[c,k] = sqrt(w)[c,k] sum_r F[k,r] mps[c,r] x[r]), "
              "batched_apply, sense_batch_invariant (forward result identical for every batch size with no / shared / per-coil "
-             "sliced weights), weights_exponent_is_half, weights_sliced_with_coils, batch_forwards_all, recon_setup_sense / "
+             "sliced weights); the adjoint Op.adj of the model (the definition the driver runs against the real A.H): "
+             "sense_adjoint_denote / sense_adjoint_index (A^H y = sum_c conj(mps_c) F^H(conj sqrt(w_c) y_c)), vstack_adjoint "
+             "(Vstack.H = Hstack: split rows by the batches' coil counts, apply batch adjoints, sum; abstract F^H), "
+             "sense_adjoint_batch_invariant (adjoint identical for EVERY batch size b >= 1, no / shared / per-coil sliced "
+             "weights), sense_dot_test_abstract (<A x, y> = <x, A^H y> from <F u, v> = <u, F^H v> for an abstract F, F^H), "
+             "matrix_adjoint_identity, sense_dot_test / sense_dot_test_complex (the adjoint identity for the model over any "
+             "commutative *-ring / C, unbatched and every batch size); weights_exponent_is_half, weights_sliced_with_coils, batch_forwards_all, recon_setup_sense / "
              "_l1wavelet / _tv, recon_objective (sum ||sqrt(w) a - sqrt(w) y||^2 = sum w ||a - y||^2), estimated_weights_sqrt, "
              "consistent_data_recovers (A injective, y = A x0, lamda = 0: x minimises iff x = x0). Tie: translator + the real "
              "operator's A(x) and A.H(y) vs the exact Gaussian-rational model with F supplied as exact fractions of numpy's FFT / "
              "single-coil nufft of basis images (1e-9), reified operator trees, recon set-ups.",
-        note="Trusted: Lean kernel; translator gen_c16; PARTIAL: adjoint batch invariance is proved only as the sum form "
-             "(sense_adjoint_batch_sum_partial; the link to the model's adjoint is by correspondence); no <Ax,y> = <x,A^H y> theorem "
-             "here (C01's dot test covers Sense); that FFT/NUFFT equal the matrix F, that the solvers reach the minimiser (objective "
+        note="Trusted: Lean kernel; translator gen_c16; hypotheses of the adjoint theorems: the arrays are rectangular (every "
+             "coil map has R entries, per-coil weights one row per coil: enforced by the driver's size checks); NOT proved: "
+             "that the real A / A.H are the model's Op.apply / Op.adj (compared on every run for every batch size at 1e-9), "
+             "that FFT/NUFFT equal the matrix F, that the solvers reach the minimiser (objective "
              "gap vs dense reference), tseg and comm are oracle/correspondence only; L1WaveletRecon only under numerically verified "
              "unitarity of W.",
         technique="Lean 4 proof (batch partition, explicit encoding, recon objectives) over translator-generated set-up + correspondence",
@@ -334,12 +354,21 @@ CLAIMED = {
              "comparison): normalize_eq, power_step_unit (unit l2 norm across coils, estimate ||Gx|| > 0), phase_ref / "
              "phase_ref_norm (coil 0 becomes |m0| >= 0 real, every modulus unchanged), espirit_keeps_iff (crop test is strictly >), "
              "crop_dichotomy (unit-norm with coil 0 = |m0|, or exactly 0), gram_symmetric / gram_psd, power_monotone / "
-             "power_bounded (Cauchy-Schwarz), espirit_scale, calib_index_map (1-D: entry (n, c kw + x) reads calib[c, n+x], reusing "
-             "C09 a2b1_mem). Tie: translator + real normalize / PowerMethod._update / _output on exact Pythagorean inputs vs the "
-             "model (1e-12, zeros exactly), calibration matrix captured at the real svd call on labelled k-space compared exactly.",
-        note="Trusted: Lean kernel; translator gen_c17; NOT theorems (search oracle only): eigenvalues <= 1, recovery of the true "
+             "power_bounded (Cauchy-Schwarz), espirit_scale, calib_shape_steps, calib_index_map / _2d / _3d (entry (row-major "
+             "block index, c kw^d + row-major kernel offset) reads calib[c, block + offset], no other entries, for ALL nc, cw, "
+             "kw, through the generated loop nests via C09 a2b1_mem / a2b2_mem / a2b3_mem), eigenvalues <= 1: bessel_gram_le, "
+             "gram_quadratic_le, eig_le_one_of_orthonormal_kernels, eigenvalue_le_one (abstract: orthonormal kernels v_k, a_k = "
+             "T^dagger v_k, ||T x||^2 = kappa ||x||^2, c kappa <= 1 => ||G x|| <= ||x||, <G x, x> <= ||x||^2, |lambda| <= 1) and "
+             "eig_le_one_espirit (E = C^{coils x kw^d}, a_k(q)[c] = sum_p v_k[c,p] eps_q(p), |eps|^2 <= 1/N, scale = generated "
+             "espiritScale = N/kw^d). Tie: translator + real normalize / PowerMethod._update / _output on exact Pythagorean inputs vs the "
+             "model (1e-12, zeros exactly), calibration matrix captured at the real svd call on labelled k-space compared exactly, "
+             "and the hypotheses of eig_le_one_espirit on the real intermediates of every run (kept VH rows orthonormal, real AHA = "
+             "espiritScale * sum_k a_k a_k^H with the explicit centred-DFT phases, N|eps|^2 <= 1, eigvalsh(AHA) <= 1; all at 1e-10).",
+        note="Trusted: Lean kernel; translator gen_c17; eig <= 1 is a theorem only UNDER the hypotheses (numpy's svd returns "
+             "orthonormal rows; sp.ifft of the centre-padded kernel is the centred orthonormal DFT) which are checked numerically, "
+             "not proved; NOT theorems (search oracle only): the float power iteration's estimate, recovery of the true "
              "maps (1e-2 in the interior, restricted to settings where the unchanged code achieves it: calib_width 12, kernel_width "
-             "4), SVD / power-iteration convergence; 2-D/3-D calibration index maps by correspondence; m0 = 0 voxels (0/0) excluded.",
+             "4), SVD / power-iteration convergence; m0 = 0 voxels (0/0) excluded.",
         technique="Lean 4 proof (per-voxel post-processing algebra) over translator-generated formulas + correspondence + invariant oracle",
         design="DESIGN.md §3 C17, §9"),
 }
